@@ -132,6 +132,8 @@ type runResult struct {
 	consumed [3]int
 	pointHit []uint32
 	raceViol *Violation // kept apart: reported after the deterministic oracles
+	vault    []vaultEntry
+	errs     []errEntry
 }
 
 func hexs(b string) string { return hex.EncodeToString([]byte(b)) }
@@ -770,6 +772,8 @@ func runPlan(p *Plan, trace bool, collectCover bool) *runResult {
 		}
 		// O2(a): strings and errors never change after they were handed out
 		for _, tc := range x.tasks {
+			res.vault = append(res.vault, tc.vault...)
+			res.errs = append(res.errs, tc.errs...)
 			for _, v := range tc.vault {
 				if v.s != v.clone {
 					res.Viol = append(res.Viol, Violation{Prop: "C14", Class: "string-changed", Task: v.task, Op: v.op, Detail: fmt.Sprintf("string returned by %s was %q and is %q now", v.what, v.clone, v.s), NeedsRun: -1})
